@@ -45,13 +45,16 @@ func (server *Server) applyRequirePass() {
 
 func (server *Server) Auth(conn *Conn, username string, password string) (*Message, error) {
 	server.applyRequirePass()
-	conn.SetUserName(username)
-	conn.SetPassword(password)
+	// The authenticators read the credentials from the connection. Refused credentials
+	// must not stay there: the connection keeps those of its last successful AUTH.
+	restore := conn.presentCredentials(username, password)
 	ok, err := server.Authenticate(conn)
 	if err != nil {
+		restore()
 		return nil, err
 	}
 	if !ok {
+		restore()
 		return nil, errors.New("invalid username or password")
 	}
 	conn.SetAuthrized(true)
